@@ -11,7 +11,7 @@ BOUNDS = {
     'quick': 'texts of 1-3 characters (plus the empty text), every UTF-8 width combination, code points symbolic; '
              '(max length, context length) symbolic: any values below 16 for all texts, and unconstrained 64-bit values '
              '(overflow configurations) for texts of <= 1 character; char / byte / full windows; grapheme mode <= 2 code points (+1 shape of 3) over Sigma_g; '
-             'possible_character_substrings / possible_byte_substrings on the same texts with symbolic limits',
+             'possible_character_substrings / possible_byte_substrings on the same texts with symbolic limits; grapheme mode: a 257-byte cluster (letter + 128 combining marks) followed by 1-2 symbolic characters',
     'thorough': 'same with texts of <= 4 characters, unconstrained 64-bit limits for <= 2 characters, grapheme mode <= 3 code points',
 }
 OUTSIDE = ['possible_character_substrings with max_chars = 0 (asserts; not a window configuration)', 'longer texts', 'grapheme mode outside Sigma_g', 'the Python wrappers char_py / byte_py']
@@ -41,10 +41,19 @@ def shapes(tier):
     # full windows in grapheme mode over texts that can contain multi-code-point clusters (CR LF, base + mark)
     for ws in ([[1], [1, 1], [1, 2], [3, 3], [1, 2, 1]] if tier == 'quick' else [[1], [2], [1, 1], [1, 2], [2, 1], [3, 3], [1, 2, 1], [1, 1, 1], [3, 2, 3]]):
         out.append({'widths': ws, 'g': True, 'kind': 'full'})
+    # grapheme mode: a single cluster whose byte length crosses 2^8 (base letter + k combining marks of 2 bytes) followed by
+    # symbolic characters: byte offsets beyond 255
+    for k in ((128,) if tier == 'quick' else (127, 128, 200)):
+        for ws, kind in (([1], 'char'), ([1], 'full'), ([2, 1], 'char'), ([1], 'byte')):
+            out.append({'widths': ws, 'g': True, 'kind': kind, 'regime': 'small', 'big': k})
     tiny = [s for s in out if len(s['widths']) <= 1]
     rest = [s for s in out if len(s['widths']) > 1]
     rest.sort(key=lambda s: -(len(s['widths']) + (3 if s['g'] else 0)))
     return tiny + rest
+
+
+def big_prefix(shape, mk=lambda c: c):
+    return [mk(0x61)] + [mk(0x301)] * shape['big'] if shape.get('big') else []
 
 
 def assume_regime(ctx, shape, mx, cx=None):
@@ -86,6 +95,10 @@ def run(ctx, shape, opts):
     chars = s.chars()
     if g:
         assume_sigma_g(ctx, chars)
+    if shape.get('big'):
+        chars = big_prefix(shape, lambda c: Int(c, 'char')) + list(chars)
+        buf = StrBuf(chars, [ctx.char_width(c) for c in chars])
+        s = StrRef(buf, 0, buf.byte_len())
     units = units_of(ctx, chars, g)
     n = len(units)
     widths = s.widths()
@@ -211,7 +224,7 @@ def _gunits(native, cps, g):
 
 def native_outputs(native, shape, inputs):
     g, kind = shape['g'], shape['kind']
-    s = inputs['s']
+    s = big_prefix(shape) + list(inputs['s'])
     if kind == 'subs':
         out = {}
         for name, op in (('char_subs', 'possible_character_substrings'), ('byte_subs', 'possible_byte_substrings')):
@@ -232,7 +245,7 @@ def native_outputs(native, shape, inputs):
 
 def concrete_check(native, inputs, shape):
     g, kind = shape['g'], shape['kind']
-    s = inputs['s']
+    s = big_prefix(shape) + list(inputs['s'])
     o = native_outputs(native, shape, inputs)
     if 'panic' in o:
         return ['no panic']
